@@ -18,7 +18,7 @@ fn c01_step(i: u8) {
     let mut s = ctx2(i);
     let got = s.advance_state(b);
     let (want, next) = ref_set2_step(i, b);
-    println!("C01 set2 ctx={} byte={:#04x} got={:?} want={:?} next_ctx={}", i, b, got, want, next);
+    crate::show!("C01 set2 ctx={} byte={:#04x} got={:?} want={:?} next_ctx={}", i, b, got, want, next);
     assert!(want.accepts(&got), "C01: Set 2 transition differs from the standard table");
     assert!(is_ctx2(&s, next), "C01: Set 2 decoder left the expected prefix context");
     kani::cover!(matches!(got, Ok(Some(_))));
@@ -50,7 +50,7 @@ pub fn c01_q_set2_keyboard_add_byte() {
     let mut kb = Keyboard::new(ctx2(i), crate::spy::Spy { tag: false, calls: &calls }, HandleControl::Ignore);
     let got = kb.add_byte(b);
     let (want, next) = ref_set2_step(i, b);
-    println!("C01 keyboard set2 ctx={} byte={:#04x} got={:?} want={:?}", i, b, got, want);
+    crate::show!("C01 keyboard set2 ctx={} byte={:#04x} got={:?} want={:?}", i, b, got, want);
     assert!(want.accepts(&got), "C01: Keyboard::add_byte differs from the standard table");
     assert!(is_ctx2(kb.verif_stages().1, next));
     kani::cover!(matches!(got, Ok(Some(_))));
@@ -68,7 +68,7 @@ pub fn c01_t_set2_stream4() {
         let b: u8 = kani::any();
         let got = s.advance_state(b);
         let (want, next) = ref_set2_step(c, b);
-        println!("C01 stream byte#{}={:#04x} ctx={} got={:?} want={:?}", n, b, c, got, want);
+        crate::show!("C01 stream byte#{}={:#04x} ctx={} got={:?} want={:?}", n, b, c, got, want);
         assert!(want.accepts(&got), "C01: stream output differs from the standard table");
         c = next;
         n += 1;
@@ -85,7 +85,7 @@ fn c02_step(i: u8) {
     let mut s = ctx1(i);
     let got = s.advance_state(b);
     let (want, next) = ref_set1_step(i, b);
-    println!("C02 set1 ctx={} byte={:#04x} got={:?} want={:?} next_ctx={}", i, b, got, want, next);
+    crate::show!("C02 set1 ctx={} byte={:#04x} got={:?} want={:?} next_ctx={}", i, b, got, want, next);
     assert!(want.accepts(&got), "C02: Set 1 transition differs from the standard table");
     assert!(is_ctx1(&s, next), "C02: Set 1 decoder left the expected prefix context");
     kani::cover!(matches!(got, Ok(Some(_))));
@@ -114,7 +114,7 @@ pub fn c02_q_set1_keyboard_add_byte() {
     let mut kb = Keyboard::new(ctx1(i), crate::spy::Spy { tag: false, calls: &calls }, HandleControl::Ignore);
     let got = kb.add_byte(b);
     let (want, next) = ref_set1_step(i, b);
-    println!("C02 keyboard set1 ctx={} byte={:#04x} got={:?} want={:?}", i, b, got, want);
+    crate::show!("C02 keyboard set1 ctx={} byte={:#04x} got={:?} want={:?}", i, b, got, want);
     assert!(want.accepts(&got), "C02: Keyboard::add_byte differs from the standard table");
     assert!(is_ctx1(kb.verif_stages().1, next));
     kani::cover!(matches!(got, Ok(Some(_))));
@@ -132,7 +132,7 @@ pub fn c02_t_set1_stream4() {
         kani::assume(!known_set1_transition(c, b));
         let got = s.advance_state(b);
         let (want, next) = ref_set1_step(c, b);
-        println!("C02 stream byte#{}={:#04x} ctx={} got={:?} want={:?}", n, b, c, got, want);
+        crate::show!("C02 stream byte#{}={:#04x} ctx={} got={:?} want={:?}", n, b, c, got, want);
         assert!(want.accepts(&got), "C02: stream output differs from the standard table");
         c = next;
         n += 1;
